@@ -150,6 +150,15 @@ class CallMixin(ExprMixin):
     def call_function(self, st: State, ctx: Ctx, fi: FuncInfo, args: list, kwargs: dict, line: int, env: Ref | None):
         key = fi.key()
         c = self.R.contracts.get(key)
+        if c is not None and "inline_unless_abstract" in c.env and args:
+            # a contract stated for an abstract receiver does not speak for a concrete class that has its own
+            # (precondition-carrying) contract: interpret the body so that the concrete callee's contract is applied
+            a0 = args[0]
+            shape = self.R.shapes.get(c.params.get(c.env["inline_unless_abstract"], ""))
+            acls = META[a0.oid].cls if isinstance(a0, Ref) else None
+            if shape is not None and isinstance(acls, ClassVal) and shape.cls != acls.ci.key():
+                self.inlined.add(key)
+                return self.inline_call(st, ctx, fi, args, kwargs, line, env)
         if c is not None and not (ctx.top is False and ctx.func is fi):
             self.contracts_used.add(key)
             if c.trusted:
@@ -528,6 +537,9 @@ class CallMixin(ExprMixin):
     def make_result(self, st: State, c: Contract, sctx: Ctx) -> Any:
         """Fresh result of the declared type; `viewof:<expr>` gives a memoryview into the (post-state) buffer <expr>."""
         t = c.result.strip()
+        if "returns_field" in c.env:
+            self_v = self.lookup_name("self", st, sctx)
+            return st.heap[self_v.oid][c.env["returns_field"]]
         if t.startswith("viewof:"):
             b = self.eval1(ast.parse(t[7:], mode="eval").body, st, sctx)
             if isinstance(b, Opt):
@@ -602,14 +614,14 @@ class CallMixin(ExprMixin):
         before = st.clone()
         for s2, r in self.call_value(st, ctx, cb, [], {}, line):
             if isinstance(r, Raise):
-                rcls = META[r.exc.oid].cls
-                if any(self.is_subclass(rcls, rc) for rc in retry_on):
-                    # a retry request: must have had no effect on the ghost state that carries the properties
-                    for gname in ho["effect_free_ghosts"]:
-                        a, b = s2.heap[s2.ghost][gname], before.heap[before.ghost][gname]
-                        self.oblige(s2, ops.values_equal(s2, a, b), "retry-effect-free", line, f"{fi.name}:{gname}-unchanged-when-the-callback-would-block")
-                    continue
-                results.append((s2, r))
+                for s3, is_retry in self.split_exc(s2, r.exc, tuple(retry_on)):
+                    if is_retry:
+                        # a retry request: must have had no effect on the ghost state that carries the properties
+                        for gname in ho["effect_free_ghosts"]:
+                            a, b = s3.heap[s3.ghost][gname], before.heap[before.ghost][gname]
+                            self.oblige(s3, ops.values_equal(s3, a, b), "retry-effect-free", line, f"{fi.name}:{gname}-unchanged-when-the-callback-would-block")
+                        continue
+                    results.append((s3, r))
             else:
                 self.apply_call_hints(s2, ctx, fi, old, (r, res_rest), line)
                 results.append((s2, (r, res_rest)))
@@ -657,15 +669,21 @@ class CallMixin(ExprMixin):
         live_before = self.feasible(st)
         # exceptional outcomes
         for cname, clauses in c.raises.items():
-            s2 = st.clone()
-            cls = self.class_by_name(cname)
-            exc = self.make_exc(s2, cls, ())
-            self.populate_exc(s2, exc, cname, c)
-            ectx = self.spec_ctx(fi, frame, (old, frame), {**ghosts, "exc": exc})
-            for cl in clauses:
-                s2.assume(self.eval_clause(cl, s2, ectx))
-            if self.feasible(s2):
-                results.append((s2, Raise(exc)))
+            classes = [self.class_by_name(cname)]
+            if c.env.get("raise_any") == cname or cname in ("BaseException", "Exception", "OSError"):
+                # "may raise any exception below cname": one path per representative class
+                from .interp import EXC_REPRESENTATIVES
+                classes = [PyClass(k) for k in EXC_REPRESENTATIVES if self.is_subclass(PyClass(k), classes[0])]
+            if classes:
+                s2 = st.clone()
+                exc = self.make_exc_any(s2, classes)
+                self.populate_exc(s2, exc, cname, c)
+                ectx = self.spec_ctx(fi, frame, (old, frame), {**ghosts, "exc": exc})
+                for cl in clauses:
+                    s2.assume(self.eval_clause(cl, s2, ectx))
+                if self.feasible(s2):
+                    s2.trace.append(f"raised:{cname}:by:{fi.qualname}")
+                    results.append((s2, Raise(exc)))
         # normal outcome
         if c.ensures or "$noreturn" not in c.env:
             res = self.make_result(st, c, sctx)
